@@ -12,19 +12,19 @@ RULE = ('three kinds of cases. rev: lists of DNA strings (all strings up to a le
         'ACGTNacgtn, packed as rows of one ragged array, empty rows included, plus longer random rows) in ASCII, ACGT '
         'and ACGTN encoding, reverse-complemented once (ragged array, SequenceEntry, each row as a flat array) and '
         'twice (with an untouched and with a materialised intermediate), also on inputs that are not yet materialised views built by prior indexing (row slice, step, mask, fancy index, column slices, reversed columns); str: a reference string and a set of stranded intervals (every [a,b) of short references, random '
-        'sets on longer ones, empty intervals included) through get_strand_specific_sequences (3 encodings), '
+        'sets on longer ones, empty intervals included; since round 6 also, as ordinary cases, the formerly failing class: at least as many intervals as extracted bases — single 1-base intervals at every position, sets of 1-base intervals only, all-empty sets of 1..33 intervals, n == bases, n > bases — on all routes and for transcripts) through get_strand_specific_sequences (3 encodings), '
         'GenomicSequence.from_dict and Genome.from_file(...).read_sequence(); tr: all 64 codons, all pairs of '
         'codons, random concatenations in mixed case, empty rows, plus rows with N/n or a length that is not a multiple of three (must raise); gen: genes.get_transcript_sequences on single- and multi-exon transcripts; seq: programs of several calls (translate, reverse complement, re-read) on the SAME ragged array / SequenceEntry and on a kept reverse complement, operands must stay unchanged. Every expected value is computed inside Coq from '
         'the Spec tables and also compared with Biopython. non-trivial = some row is not its own reverse '
         'complement / some minus-strand interval of length >= 2 / at least one codon')
 EXHAUSTIVE = {'quick': False, 'thorough': False}
-TIE = 'translator+correspondence (Gen/C14.v regenerated from dna.py, translate.py, kmers.py, genes.py, genomic_sequence.py; Bridge/C14.v; complement tables, lookup, row reversal, np.where choice, TCAG 3-mer hash evaluated in Coq on the same inputs; Biopython as second oracle for the Spec tables)'
+TIE = 'translator+correspondence (Gen/C14.v regenerated from dna.py, translate.py, kmers.py, genes.py, genomic_sequence.py; Bridge/C14.v; complement tables, lookup, row reversal, the explicit row mask broadcast_row_mask and the mask form / broadcast operand of the three np.where sites, np.where choice, TCAG 3-mer hash evaluated in Coq on the same inputs; Biopython as second oracle for the Spec tables)'
 ASSUMPTIONS = ['npstructures ragged indexing ([..., ::-1], flat[starts:stops], lazy views) is modelled as per-row reversal / slicing and tied by correspondence only (inputs are also handed over as not yet materialised views)',
                'Biopython 1.88 Seq.reverse_complement / Seq.translate (standard table) used as an independent oracle for the Coq Spec tables (bio_ok)',
                'genes.get_transcript_sequences is called with in-memory GFFExonEntry rows behind a minimal annotation object (len, get_exons): the GTF-file route raises TypeError at HEAD before reaching the strand code (the repository\'s own test_get_transcript_sequences is not in the passing baseline)',
                'translation of rows that do not split into ACGTacgt codons (N/n, length not a multiple of 3) is outside the quantifier; expected behaviour fixed as "must raise" and checked (C14_translate_total)']
-PARTIAL = ['C14_stranded_head / C14_transcripts_head: at HEAD strand-aware extraction holds for item sets extracting more bases than they have items; C14_stranded_head_fails / second half of C14_transcripts_head: on every other valid input the call raises (known finding C14-stranded-where-not-broadcast, root cause in npstructures np.where); C14_stranded_fixed / C14_transcripts_fixed: full statement with notes/C14.fix-2.diff',
-           'C14_revcomp_partial / C14_stranded_partial / *_pinned_refuted are history of the lower-case ASCII defect (fixed in /repo c37d549); C14_revcomp_head is the full statement for HEAD']
+PARTIAL = ['nothing in force is partial: C14_revcomp_head, C14_stranded_head, C14_transcripts_head, C14_translate(_total), C14_link hold without a size or case guard for the code at HEAD (complement table repaired in c37d549; np.where mask repaired by broadcast_row_mask, notes/C14.fix-2.final.diff; C14_row_mask_where + C14_source_tie tie the regenerated mask expression of the three call sites to the row-wise choice of the model)',
+           'history, about the code BEFORE the repairs: C14_revcomp_partial / C14_stranded_partial / C14_revcomp_pinned_refuted / C14_stranded_pinned_refuted (lower-case ASCII table and column mask), C14_stranded_pinned_where / C14_stranded_pinned_where_fails / C14_transcripts_pinned_where (column mask `(..)[:, np.newaxis]`: correct iff more bases than items, otherwise raises — the former finding C14-stranded-where-not-broadcast)']
 PER_FILE = 40
 ALPH = {0: 'ACGTNacgtn', 1: 'ACGTacgt', 2: 'ACGTNacgtn'}
 ERR = {'EncodingError': 1, 'AssertionError': 2, 'IndexError': 3, 'KeyError': 4, 'AttributeError': 5, 'ValueError': 5}
@@ -210,6 +210,23 @@ def generate(tier, seed):
     for txs in ([[[[2, 3]], '-']], [[[[0, 0]], '+']], [[[[0, 1]], '+'], [[[3, 4]], '-']], [[[[0, 2], [4, 6]], '-']],
                 [[[[1, 3]], '-'], [[[3, 3]], '+']], [[[[0, 3], [3, 6]], '-'], [[[6, 7]], '+']]):
         cases.append(dict(op='gen', ref='ACGTNAc', txs=txs))
+    # round 6 — transcripts with at most as many bases as transcripts (raised before the np.where repair)
+    for txs in ([[[[6, 7]], '-']], [[[[0, 0], [3, 3]], '-']], [[[[0, 1]], '-'], [[[6, 7]], '-'], [[[4, 5]], '+']],
+                [[[[1, 1]], '+'], [[[2, 2], [5, 5]], '-'], [[[7, 7]], '-']], [[[[0, 0], [2, 3]], '-'], [[[3, 3]], '+'], [[[4, 4]], '-']],
+                [[[[0, 1], [1, 1]], '+'], [[[5, 6]], '-'], [[[2, 2]], '-'], [[[3, 3]], '+']]):
+        cases.append(dict(op='gen', ref='ACGTNAc', txs=txs))
+    for i in range(10 if quick else 60):
+        L = rng.randint(2, 9)
+        ref = rstr(L, ALPH[2])
+        n = rng.choice([1, 2, 3, 6, 17])
+        txs = []
+        for _ in range(n):
+            a = rng.randint(0, L - 1)
+            ex = [[a, a + (1 if rng.random() < 0.5 else 0)]]
+            if rng.random() < 0.3:
+                ex.append([ex[0][1], ex[0][1]])
+            txs.append([ex, rng.choice('+-')])
+        cases.append(dict(op='gen', ref=ref, txs=txs))
 
     # ---- str routes 3 / 4: several chromosomes; the genome of the intervals lists them in another order / a subset / sorted
     NAMES = ['chr2', 'chr10', 'chr1', 'chrX', 'chrM']
@@ -245,7 +262,10 @@ def generate(tier, seed):
             a = rng.randint(0, L)
             b = rng.randint(a, L) if rng.random() < 0.85 else a
             civs.append([c, a, b, '-' if rng.random() < 0.5 else '+'])
-        civs.append([usable[0], 0, len(seqd[usable[0]]), '-'])        # keeps the set outside the known-finding class
+        if i % 3:
+            civs.append([usable[0], 0, len(seqd[usable[0]]), '-'])    # a whole chromosome, minus strand
+        elif i % 2:
+            civs = [[cn, a, min(a + 1, len(seqd[cn])), st] for cn, a, b, st in civs]   # only 1-base / empty intervals
         c = dict(op='str', route=route, enc=2, ref=''.join(sq for n, sq in chroms),
                  ivs=[[off[cn] + a, off[cn] + b, st] for cn, a, b, st in civs], chroms=chroms, civs=civs)
         if route == 3:
@@ -294,6 +314,26 @@ def generate(tier, seed):
         for ivs in ([(2, 3, '-')], [(0, 0, '+')], [(1, 1, '-'), (4, 4, '+')], [(0, 1, '+'), (5, 6, '-')],
                     [(0, 2, '-'), (3, 3, '+')], [(0, 2, '-'), (3, 3, '+'), (4, 4, '-')], [(0, 2, '-')], [(0, 3, '-'), (3, 3, '+')]):
             cases.append(dict(op='str', route=route, enc=enc, ref=ref, ivs=[list(x) for x in ivs]))
+        # round 6 — the class that raised before the np.where repair (#intervals >= #extracted bases), now ordinary cases:
+        # one 1-base interval at every position and strand; sets of 1-base intervals only; all-empty sets of 1..33
+        # intervals; n == bases; n > bases
+        ref = rstr(5, alph)
+        for a in range(5):
+            for st in '+-':
+                cases.append(dict(op='str', route=route, enc=enc, ref=ref, ivs=[[a, a + 1, st]]))
+        for n in ([1, 2, 3, 5, 17, 33] if quick else [1, 2, 3, 4, 5, 8, 16, 17, 18, 33, 64]):
+            ref = rstr(rng.randint(1, 9), alph)
+            L = len(ref)
+            ones = [[a, a + 1, rng.choice('+-')] for a in (rng.randint(0, L - 1) for _ in range(n))]
+            empty = [[a, a, rng.choice('+-')] for a in (rng.randint(0, L) for _ in range(n))]
+            cases.append(dict(op='str', route=route, enc=enc, ref=ref, ivs=ones))            # n == bases
+            cases.append(dict(op='str', route=route, enc=enc, ref=ref, ivs=empty))           # 0 bases
+            mixed = [x for pair in zip(ones, empty) for x in pair]
+            cases.append(dict(op='str', route=route, enc=enc, ref=ref, ivs=mixed))           # n > bases > 0
+            if n > 1:
+                two = [list(x) for x in empty]
+                two[rng.randrange(n)] = [0, min(L, n), '-']                                   # n >= bases, one longer row
+                cases.append(dict(op='str', route=route, enc=enc, ref=ref, ivs=two))
         for i in range(30 if quick else 300):
             L = rng.choice([3, 8, 20, 40]) if rng.random() < 0.5 else rng.randint(2, 25)
             ref = rstr(L, alph if i % 4 else alph.upper())
@@ -722,18 +762,9 @@ def distribution(cases, obs):
 
 
 def finding(case, o):
-    """Only the one listed failure mode: np.where raises (code 5) AND the item set has at least as many items as extracted
-    bases.  The model returns Err 5 on exactly that class (C14_stranded_head_fails / C14_transcripts_head), so a case where
-    the implementation disagrees with the model is never matched here."""
-    op = case['op']
-    if op == 'str':
-        ivs = case['ivs']
-        if o['o'][0] == 5 and not o['o'][1] and len(ivs) >= sum(b - a for a, b, st in ivs):
-            return 'C14-stranded-where-not-broadcast'
-    if op == 'gen':
-        txs = case['txs']
-        if o['o'][0] == 5 and not o['o'][1] and len(txs) >= sum(b - a for ex, st in txs for a, b in ex):
-            return 'C14-stranded-where-not-broadcast'
+    """No known finding is left for C14: the former `C14-stranded-where-not-broadcast` (np.where raised whenever the item set
+    had at least as many items as extracted bases) was repaired in the library (broadcast_row_mask, notes/C14.fix-2.final.diff);
+    that class is generated as ordinary cases and a failure there is a VIOLATION."""
     return None
 
 
